@@ -379,7 +379,7 @@ def c01_evaluate(seed, hashseed, root, stats):
     """Sampled worlds + (every 8th seed) enumeration of 'any single raising hook or cleanup':
     every hook invocation / registered cleanup of an otherwise unchanged run raises once."""
     out, dig = _e01(seed, hashseed, root, stats)
-    if seed % 8 != 0:
+    if (seed // 16) % 8 != 0:      # (index within the worker: balanced over the 16 workers)
         return out, dig
     world = W.gen_world(seed, profile=prof_C01)
     world["hashseed"] = hashseed
@@ -417,7 +417,7 @@ _e = c01_evaluate
 _reg("C01", _e, _r, "exploration",
      "worlds (feature trees x step outcomes x hooks x cleanups x tag/name/location selection x --stop/--dry-run/--wip) "
      "generated from the seed; verdict compared with the model's reading of the REALISED events; " + NONTRIVIAL,
-     {"quick": 2200, "thorough": 40000})
+     {"quick": 1500, "thorough": 40000})
 
 _e, _r = make_runsim("C02", [O.check_C02], prof_C02, c02_probe)
 _reg("C02", _e, _r, "exploration",
@@ -498,7 +498,7 @@ def c13_enumerate_cleanup_faults(world, root, stats):
 
 def c13_evaluate(seed, hashseed, root, stats):
     out, d1 = _e13(seed, hashseed, root, stats)
-    if seed % 4 == 0:
+    if (seed // 16) % 4 == 0:
         world = W.gen_world(seed, profile=prof_C13)
         world["hashseed"] = hashseed
         o3, d3 = c13_enumerate_cleanup_faults(world, root, stats)
@@ -531,7 +531,7 @@ _reg("C13", _e, _r, "exploration",
      "use_or_create / add_cleanup (plain, args, layer=, same function twice) / use_fixture (generator, plain, failing "
      "setup, composite, nested) in user and behave mode, with ALL subsets of raising cleanups for histories with <= 4 "
      "cleanups (sampled beyond), every name read back after every operation; " + NONTRIVIAL,
-     {"quick": 1700, "thorough": 30000}, minimise=c13_minimise)
+     {"quick": 800, "thorough": 30000}, minimise=c13_minimise)
 
 
 # ---------------------------------------------------------------------------
